@@ -645,8 +645,14 @@ func ruleAggrAllFlag(p *Prog, r *Result) {
 			ph, isPhi := st.Val.(*ssa.Phi)
 			bad := ""
 			if !isPhi {
-				if _, isC := constBool(st.Val); !isC {
-					bad = "AggrAll is computed, not decided by the presence of GROUP BY"
+				okDirect := false
+				if bo, isB := st.Val.(*ssa.BinOp); isB && bo.Op == token.EQL {
+					if (isFieldLoad(bo.X, "SelectStmt", "GroupBy") && isNilConst(bo.Y)) || (isFieldLoad(bo.Y, "SelectStmt", "GroupBy") && isNilConst(bo.X)) {
+						okDirect = true // AggrAll: stmt.GroupBy == nil
+					}
+				}
+				if !okDirect {
+					bad = "AggrAll is not decided by the presence of GROUP BY"
 				}
 			} else {
 				for i, e := range ph.Edges {
@@ -803,6 +809,153 @@ func ruleRowCarry(p *Prog, r *Result) {
 			}
 			key := fmt.Sprintf("%s|rowloop#%d", p.FName(fn), li)
 			bad := ""
+			// a one-entry memo is fine: the carried value is reused only where the current row's operand was
+			// compared with the carried key it was computed from (an equality test between a row-derived
+			// value and a carried variable inside the loop)
+			isCarried := map[ssa.Value]bool{}
+			for _, c := range carried {
+				isCarried[c] = true
+			}
+			type memoGuard struct {
+				b     *ssa.BasicBlock
+				eqIdx int
+			}
+			var memoGuards []memoGuard
+			for _, b := range orderedBlocks(fn, L.Body) {
+				f := ifOf(b)
+				if f == nil {
+					continue
+				}
+				var x, y ssa.Value
+				c := f.Cond
+				eqIdx := 0
+				for {
+					if u, ok := c.(*ssa.UnOp); ok && u.Op == token.NOT {
+						c = u.X
+						eqIdx = 1 - eqIdx
+						continue
+					}
+					break
+				}
+				switch cv := c.(type) {
+				case *ssa.BinOp:
+					if cv.Op == token.EQL || cv.Op == token.NEQ {
+						x, y = cv.X, cv.Y
+						if cv.Op == token.NEQ {
+							eqIdx = 1 - eqIdx
+						}
+					}
+				case *ssa.Call:
+					if g := cv.Call.StaticCallee(); g != nil && (p.qualName(g) == "bytes.Equal") && len(cv.Call.Args) == 2 {
+						x, y = cv.Call.Args[0], cv.Call.Args[1]
+					}
+				}
+				if x == nil {
+					continue
+				}
+				// dependencies of a value within this iteration: carried variables are leaves
+				within := func(v ssa.Value) (onCarried, onRow bool) {
+					seen := map[ssa.Value]bool{}
+					var rec func(z ssa.Value, d int)
+					rec = func(z ssa.Value, d int) {
+						if z == nil || seen[z] || d > 40 {
+							return
+						}
+						seen[z] = true
+						if isCarried[z] {
+							onCarried = true
+							return
+						}
+						if isRowElem(z) {
+							onRow = true
+							return
+						}
+						switch z.(type) {
+						case *ssa.Parameter, *ssa.Const, *ssa.Global, *ssa.FreeVar, *ssa.Function, *ssa.Builtin:
+							return
+						}
+						if in, ok := z.(ssa.Instruction); ok {
+							for _, op := range in.Operands(nil) {
+								if op != nil && *op != nil {
+									rec(*op, d+1)
+								}
+							}
+						}
+					}
+					rec(v, 0)
+					return
+				}
+				carriedSide := func(v ssa.Value) bool { c, rw := within(v); return c && !rw }
+				rowSide := func(v ssa.Value) bool { _, rw := within(v); return rw }
+				if (carriedSide(x) && rowSide(y)) || (carriedSide(y) && rowSide(x)) {
+					memoGuards = append(memoGuards, memoGuard{b, eqIdx})
+				}
+			}
+			underMemo := func(blk *ssa.BasicBlock) bool {
+				for _, g := range memoGuards {
+					if edgeDominates(g.b, g.eqIdx, blk) {
+						return true
+					}
+				}
+				return false
+			}
+			// reachesUnguarded: v depends on carried variable c other than through a merge edge taken
+			// under a memo guard's equal side
+			var reachesUnguarded func(v ssa.Value, c *ssa.Phi, seen map[ssa.Value]bool, d int) bool
+			reachesUnguarded = func(v ssa.Value, c *ssa.Phi, seen map[ssa.Value]bool, d int) bool {
+				if v == nil || seen[v] || d > 40 {
+					return false
+				}
+				seen[v] = true
+				if v == ssa.Value(c) {
+					return true
+				}
+				switch y := v.(type) {
+				case *ssa.Phi:
+					if !L.Body[y.Block()] {
+						return false
+					}
+					for i, e := range y.Edges {
+						pr := y.Block().Preds[i]
+						viaGuard := underMemo(pr)
+						for _, g := range memoGuards {
+							if g.b == pr && pr.Succs[g.eqIdx] == y.Block() {
+								viaGuard = true
+							}
+						}
+						if viaGuard && (e == ssa.Value(c) || isCarried[e]) {
+							continue
+						}
+						if reachesUnguarded(e, c, seen, d+1) {
+							return true
+						}
+					}
+					return false
+				case *ssa.Slice:
+					if k, ok := constInt(y.High); ok && k == 0 {
+						return false
+					}
+				case *ssa.Alloc:
+					for _, sv := range storedInto(y) {
+						if reachesUnguarded(sv, c, seen, d+1) {
+							return true
+						}
+					}
+					return false
+				case *ssa.Parameter, *ssa.Const, *ssa.Global, *ssa.FreeVar, *ssa.Function, *ssa.Builtin:
+					return false
+				}
+				in, ok := v.(ssa.Instruction)
+				if !ok {
+					return false
+				}
+				for _, op := range in.Operands(nil) {
+					if op != nil && *op != nil && reachesUnguarded(*op, c, seen, d+1) {
+						return true
+					}
+				}
+				return false
+			}
 			for _, b := range orderedBlocks(fn, L.Body) {
 				for _, in := range b.Instrs {
 					st, ok := in.(*ssa.Store)
@@ -813,8 +966,11 @@ func ruleRowCarry(p *Prog, r *Result) {
 					if !ok || ia.Index != ssa.Value(idx) || !isRowContainer(ia.X.Type()) {
 						continue
 					}
+					if underMemo(st.Block()) {
+						continue
+					}
 					for _, c := range carried {
-						if dataDeps(st.Val, func(x ssa.Value) bool { return x == ssa.Value(c) }) {
+						if reachesUnguarded(st.Val, c, map[ssa.Value]bool{}, 0) {
 							nm := c.Comment
 							if nm == "" {
 								nm = c.Name()
